@@ -202,6 +202,31 @@ async fn handle_raw_message(args: ListenArgs, buf: &[u8]) -> Option<Message> {
     }
 }
 
+/// Serialise a response.  A response which cannot be put on the wire - a
+/// record whose RDATA does not fit its 16-bit length field, more records than a
+/// section count can hold - is replaced by a SERVFAIL without records, so that
+/// the client gets a reply rather than none.
+///
+/// Returns the message which was serialised, and its octets.
+fn serialise_response(
+    message: Message,
+) -> Result<(Message, BytesMut), dns_types::protocol::serialise::Error> {
+    match message.to_octets() {
+        Ok(serialised) => Ok((message, serialised)),
+        Err(error) => {
+            tracing::warn!(?message, ?error, "could not serialise message");
+            let mut fallback = message;
+            fallback.answers.clear();
+            fallback.authority.clear();
+            fallback.additional.clear();
+            fallback.header.rcode = Rcode::ServerFailure;
+            fallback.header.is_authoritative = false;
+            let serialised = fallback.to_octets()?;
+            Ok((fallback, serialised))
+        }
+    }
+}
+
 async fn listen_tcp_task(args: ListenArgs, socket: TcpListener) {
     loop {
         match socket.accept().await {
@@ -225,8 +250,8 @@ async fn listen_tcp_task(args: ListenArgs, socket: TcpListener) {
                         }
                     };
                     if let Some(message) = response {
-                        match message.to_octets() {
-                            Ok(mut serialised) => {
+                        match serialise_response(message) {
+                            Ok((message, mut serialised)) => {
                                 DNS_RESPONSES_TOTAL
                                     .with_label_values(&[
                                         message.header.is_authoritative.to_string(),
@@ -244,12 +269,7 @@ async fn listen_tcp_task(args: ListenArgs, socket: TcpListener) {
                                 }
                             }
                             Err(error) => {
-                                tracing::warn!(
-                                    ?peer,
-                                    ?message,
-                                    ?error,
-                                    "could not serialise message"
-                                );
+                                tracing::warn!(?peer, ?error, "could not serialise message");
                             }
                         };
                     };
@@ -294,8 +314,8 @@ async fn listen_udp_task(args: ListenArgs, socket: UdpSocket) {
             }
 
             Some((message, peer, response_timer)) = rx.recv() => {
-                match message.to_octets() {
-                    Ok(mut serialised) => {
+                match serialise_response(message) {
+                    Ok((message, mut serialised)) => {
                         DNS_RESPONSES_TOTAL.with_label_values(&[
                             &message.header.is_authoritative.to_string(),
                             &(serialised.len() > 512).to_string(),
@@ -309,12 +329,7 @@ async fn listen_udp_task(args: ListenArgs, socket: UdpSocket) {
                         }
                     }
                     Err(error) => {
-                        tracing::warn!(
-                            ?peer,
-                            ?message,
-                            ?error,
-                            "could not serialise message"
-                        );
+                        tracing::warn!(?peer, ?error, "could not serialise message");
                     }
                 };
                 response_timer.observe_duration();
